@@ -83,9 +83,9 @@ def peerSteps : List String → World → List String → Option (List String)
       let w := wManyUpdates k w
       peerSteps rest w (s!"n={k}:{if w.hung then 0 else 1}" :: acc)
     | "C", none =>
-      let conns := w.abmf.st.conns.length + w.rf.st.conns.length
-      let tasks := 2 * conns + w.abmf.st.blocked + w.rf.st.blocked
-      peerSteps rest w (s!"c={conns}:{tasks}" :: acc)
+      let conns := w.abmf.w.st.conns.length + w.rf.w.st.conns.length
+      let tasks := tasks Chf.Gen.abmfClient w.abmf.w + tasks Chf.Gen.ratingClient w.rf.w
+      peerSteps rest w (s!"c={conns}:{tasks}:{w.abmf.w.orphans + w.rf.w.orphans}" :: acc)
     | _, _ => none
 
 def peerOp : Tok → String
